@@ -484,7 +484,7 @@ func assertionFunctions(i *interpreter.Interpreter, c *shared.Counter) Functions
 				if err != nil {
 					return value.Null, errors.WithStack(err)
 				}
-				v, err := Assert_equal(ctx, unwrapped...)
+				v, err := Assert_equal_fold(ctx, unwrapped...)
 				if err != nil {
 					c.Fail()
 				} else {
